@@ -1164,6 +1164,37 @@ def variable_in_list_literal(rng, sv, doc):
     return d, "var-in-list:depth%d%s:%s" % (nl, ":object-field" if no else "", what)
 
 
+def variable_in_list_at_custom_scalar(rng, sv, doc):
+    """`f(sc: [ $v ])` with `sc: Sc` an SDL custom scalar and `$v: Int`: the items of a list literal written at a
+    non-list position are typed with the position's nullable type (graphql-js parity), so 5.8.5 is violated"""
+    d = copy.deepcopy(doc)
+    p = Pos(sv, d)
+    sites = []
+    for s, par, df, _ in p.fields:
+        f = p.fielddef(s, par)
+        if not f:
+            continue
+        given = {a["name"]: a for a in s["args"]}
+        for ad in f.get("args") or []:
+            st = strip(ad["type"])
+            a = given.get(ad["name"])
+            if st[0] == "named" and sv.kind(st[1]) == "scalar" and st[1] not in vo.SCALARS and not (a and _has_var(a["value"])):
+                sites.append((s, ad, a, df))
+    if not sites:
+        return None
+    s, ad, a, df = rng.choice(sites)
+    vt, what = rng.choice([(("named", "Int"), "Int"), (("list", strip(ad["type"])), "list-of-the-scalar")])
+    val = ("list", [("var", "zzv")])
+    if a is None:
+        s["args"].append({"name": ad["name"], "value": val})
+    else:
+        a["value"] = val
+    for o in _ops_reaching(d, df):
+        o["long"] = True
+        o["vars"].append({"name": "zzv", "type": vt, "default": None})
+    return d, "var-in-list-at-custom-scalar:" + what
+
+
 def _clear_base(vt, lt):
     return True
 
@@ -1465,6 +1496,7 @@ INJECTORS = [
     ("all_variable_usages_allowed", "5.8.5", ["VariablesInAllowedPositionChecker"], variable_usages_allowed),
     ("all_variable_usages_allowed", "5.8.5", ["VariablesInAllowedPositionChecker"], allowed_position_multi_op),
     ("all_variable_usages_allowed", "5.8.5", ["VariablesInAllowedPositionChecker"], variable_in_list_literal),
+    ("all_variable_usages_allowed", "5.8.5", ["VariablesInAllowedPositionChecker"], variable_in_list_at_custom_scalar),
     ("overlapping_fields_can_be_merged", "5.3.2", ["OverlappingFieldsCanBeMergedChecker"], overlapping_same_key_subfields),
     ("overlapping_fields_can_be_merged", "5.3.2", ["OverlappingFieldsCanBeMergedChecker"], overlapping_typename_vs_leaf),
     ("fields_on_correct_type", "5.3.1", ["FieldsOnCorrectTypeChecker"], stack_leak_unknown_field),
